@@ -1055,7 +1055,7 @@ func (vm *Thread) run() {
 		case bytecode.NEXT16:
 			vm.throwIfErr(vm.opNext(int(vm.readUint16())))
 		case bytecode.FOR_IN_BUILTIN:
-			vm.opForInBuiltin()
+			vm.throwIfErr(vm.opForInBuiltin())
 		case bytecode.FOR_IN:
 			vm.opForIn()
 		case bytecode.GET_ITERATOR:
@@ -2678,17 +2678,22 @@ func (vm *Thread) opForIn() {
 }
 
 // Drives the for..in loop for builtin iterable types
-func (vm *Thread) opForInBuiltin() {
+func (vm *Thread) opForInBuiltin() (err value.Value) {
 	iterator := vm.peek()
 	result, err := NextBuiltin(vm, iterator)
 	if !err.IsUndefined() {
+		if err != symbol.L_stop_iteration.ToValue() {
+			// only the end of the iteration ends the loop, every other error is thrown
+			return err
+		}
 		vm.pop()
 		vm.ipIncrementBy(uintptr(vm.readUint16()))
-		return
+		return value.Undefined
 	}
 
 	vm.replace(result)
 	vm.ipIncrementBy(2)
+	return value.Undefined
 }
 
 // Create a new string.
